@@ -39,6 +39,7 @@ type kvService struct {
 	reads     int
 	readsCh   chan struct{}
 	twoPC     chan struct{}
+	openKeys  map[uint64]int // start version -> prewritten keys not committed yet
 }
 
 func (s *kvService) arm(needReads int) {
@@ -47,6 +48,7 @@ func (s *kvService) arm(needReads int) {
 	s.armed, s.needReads, s.reads = true, needReads, 0
 	s.readsCh = make(chan struct{})
 	s.twoPC = make(chan struct{}, 1)
+	s.openKeys = map[uint64]int{}
 }
 
 func (s *kvService) disarm() {
@@ -91,11 +93,26 @@ func (s *kvService) beforePrewrite() func() {
 	}
 }
 
-func (s *kvService) afterCommit() {
+func (s *kvService) notePrewritten(start uint64, n int) {
+	s.schedMu.Lock()
+	defer s.schedMu.Unlock()
+	if s.armed {
+		s.openKeys[start] += n
+	}
+}
+
+// afterCommit releases the two-phase-commit slot once every key the transaction prewrote has been
+// committed (the client may commit the primary alone first and the rest in further RPCs)
+func (s *kvService) afterCommit(start uint64, n int) {
 	s.schedMu.Lock()
 	armed, tp := s.armed, s.twoPC
-	s.schedMu.Unlock()
+	done := false
 	if armed {
+		s.openKeys[start] -= n
+		done = s.openKeys[start] <= 0
+	}
+	s.schedMu.Unlock()
+	if armed && done {
 		select {
 		case <-tp:
 		default:
@@ -139,13 +156,15 @@ func (s *kvService) KvPrewrite(_ context.Context, req *pb.KvPrewriteRequest) (*p
 	}
 	if len(r.GetPrewrite().GetErrors()) > 0 {
 		release() // the client will not commit
+	} else {
+		s.notePrewritten(req.GetRequest().GetStartVersion(), len(req.GetRequest().GetMutations()))
 	}
 	return &pb.KvPrewriteResponse{Response: r.GetPrewrite()}, nil
 }
 
 func (s *kvService) KvCommit(_ context.Context, req *pb.KvCommitRequest) (*pb.KvCommitResponse, error) {
 	r, err := s.apply(req.GetContext(), &pb.Request{CmdType: pb.CmdType_CMD_COMMIT, Cmd: &pb.Request_Commit{Commit: req.GetRequest()}})
-	s.afterCommit()
+	s.afterCommit(req.GetRequest().GetStartVersion(), len(req.GetRequest().GetKeys()))
 	if err != nil {
 		return nil, err
 	}
@@ -963,15 +982,17 @@ func (e *twoPCEngine) Gen(r *hlib.Rand, tier string) []string {
 			ops = append(ops, fmt.Sprintf("seedput %d %d %d %d", k, 1+2*k, 2+2*k, 50+k))
 		}
 	}
+	// every timestamp of a case is used once (a TSO never hands one out twice): older seeds use
+	// 1..8, the transaction 10 and 11|12|15, a newer write 13/14 or 20/21, a foreign lock 9 or 30
 	if r.Chance(12) {
 		if r.Bool() {
 			ops = append(ops, fmt.Sprintf("seedput %d 20 21 70", r.Intn(nKeys))) // newer write: conflict
 		} else {
-			ops = append(ops, fmt.Sprintf("seedput %d 9 10 70", r.Intn(nKeys))) // commit ts = start: boundary of the conflict test
+			ops = append(ops, fmt.Sprintf("seedput %d 13 14 70", r.Intn(nKeys))) // started after, committed around the commit version: conflict
 		}
 	}
 	if r.Chance(12) {
-		ops = append(ops, fmt.Sprintf("seedlock %d %d %d", r.Intn(nKeys), hlib.Pick(r, []uint64{7, 30}), 0))
+		ops = append(ops, fmt.Sprintf("seedlock %d %d %d", r.Intn(nKeys), hlib.Pick(r, []uint64{9, 30}), 0))
 	}
 	ops = append(ops, fmt.Sprintf("txn p=%d start=%d cv=%d ttl=%d muts=%s regions=%s", primary, start, cv, ttl, strings.Join(mm, ","), strings.Join(rm, ",")))
 	curPool := []uint64{start, start + ttl - 1, start + ttl, cv - 1, cv, cv + 3, 1000}
